@@ -201,6 +201,8 @@ def mon_c01(s, v):
         final = "puback" if o.qos == 1 else "pubcomp"
         acks = [r for r in v.inb if first <= r["i"] <= di and r["dec"].get("pid") == pid and r["dec"]["type"] in (final, "pubrec")]
         fin = [r for r in acks if r["dec"]["type"] == final]
+        # a failing PUBREC ends a QoS 2 exchange (a stray PUBCOMP for the same identifier in the window does not change that)
+        if o.qos == 2 and rc >= 0x80 and any(r["dec"]["type"] == "pubrec" and r["dec"]["rc"] == rc for r in acks): continue
         if o.qos == 2 and rc >= 0x80 and not fin:
             fin = [r for r in acks if r["dec"]["type"] == "pubrec" and r["dec"]["rc"] >= 0x80]
             if not fin: f.append(f"{o.name}: completed with rc={rc} but no failing PUBREC for id {pid} was received"); continue
